@@ -118,6 +118,12 @@ impl AddressRecord {
         &self.address
     }
 
+    /// Verification hook: read access to the score (`score()` is test-only).
+    #[cfg(feature = "verif")]
+    pub fn verif_score(&self) -> i32 {
+        self.score
+    }
+
     /// Update score of an address.
     pub fn update_score(&mut self, score: i32) {
         self.score = score;
